@@ -33,8 +33,12 @@ fn c_el_op(rng: &mut Rng) -> ElOp {
             let n = rng.small(2);
             ElOp::OnEndTag((0..n).map(|_| wl::et_op(rng)).collect())
         }
-        14 => ElOp::GetAttr(rng.pick(wl::TREE_ATTRS).into()),
-        _ => ElOp::Snapshot,
+        14 => {
+            if rng.bool() { ElOp::GetAttr(rng.pick(wl::TREE_ATTRS).into()) } else { ElOp::HasAttr(rng.pick(wl::TREE_ATTRS).into()) }
+        }
+        _ => {
+            if rng.chance(1, 4) { ElOp::ClearEndTag } else { ElOp::Snapshot }
+        }
     }
 }
 
@@ -96,6 +100,7 @@ fn gen_case(rng: &mut Rng) -> Case {
     if rng.chance(1, 6) {
         sc.finish = Finish::Drop;
     }
+    sc.probe = rng.chance(1, 3);
     let mut c = Case::of(sc);
     c.mode = format!("v{}{}{}", u8::from(rng.bool()), u8::from(rng.bool()), u8::from(rng.chance(1, 3)));
     c
